@@ -1,40 +1,107 @@
-"""C16 Filtering never removes a value that takes part in a solution (PropMC, all 21 types)."""
+"""C16 No in-contract input makes the engine read or write outside its arrays.
+(a) PropMC, interpreted: every filtering call of the contract table - any IndexError is the violation;
+(b) SolveMC, interpreted: every problem of U x configurations x {enumerate, minimise} with a stack deeper than the search;
+(c) compiled mode with NUMBA_BOUNDSCHECK=1 (sub-processes, private cache): every propagator called directly on the contract
+    table, whole solves of a universe slice with fd 2 captured."""
+import json
 import time
 
-from mc import propmc
-from mc.runner import finish
+from mc import propmc, solvecheck as SC, solvemc as S, subproc, universe as U
+from mc.runner import Acc, HarnessError, finish
 
 PROP = "C16"
+
+
+def layout(spec):
+    return spec["tag"].split(":")[-1] if SC.family_of(spec) == "F1" else spec["tag"].replace(":", "/")
+
+
+def check_spec(acc, spec, tier):
+    nv = len(spec["vars"])
+    for cfg in S.configs_for(spec, tier, full=SC.family_of(spec) in ("F3", "F4")):
+        for mode, var in (("enumerate", None), ("min", nv - 1)):
+            if mode != "enumerate" and (U.n_assignments(spec) > 5000 or SC.family_of(spec) == "F1"):
+                continue
+            o = S.run(spec, cfg, mode, var)
+            acc.c["runs"] += 1
+            acc.c["propagator_executions"] += o.stats.get("PROPAGATOR_FILTER_NB", 0)
+            if o.stats.get("SOLVER_CHOICE_NB", 0):
+                acc.c["nt_runs_with_search"] += 1
+            if o.abort == "index":
+                acc.violation(f"engine:{SC.con_types(spec)}:{layout(spec)}:index-error", SC.witness(spec, cfg, mode=mode, var=var, error=o.abort_detail),
+                              "IndexError during a solver run (interpreted mode): an array is indexed outside its bounds")
+            elif o.abort:
+                acc.c["aborted_" + o.abort.split(":")[0]] += 1
+
+
+def unit(u):
+    tier, specs = u
+    acc = Acc()
+    for spec in specs:
+        acc.c["problems"] += 1
+        check_spec(acc, spec, tier)
+    return acc
+
+
+def compiled_part(acc, tier):
+    env_extra = {"NUMBA_BOUNDSCHECK": "1"}
+    nsh = 8
+    procs = [subproc.popen_module("mc.boundsworker", [tier, sh, nsh], True, env_extra, tag="-boundscheck") for sh in range(nsh)]
+    for p in procs:
+        out, err = p.communicate(timeout=3000)
+        if p.returncode != 0:
+            raise HarnessError("boundsworker failed: " + err[-1500:])
+        o = json.loads(out.strip().splitlines()[-1])
+        acc.c["compiled_boundschecked_calls"] += o["calls"]
+        acc.c["compiled_boundschecked_solves"] += o["solves"]
+        for w in o["index_errors"]:
+            acc.violation(f"compiled:{w['type']}:{propmc.subkey(w['type'], w['n'], w['params'], [tuple(b) for b in w['box']])}:bounds-check-failure", w,
+                          "NUMBA_BOUNDSCHECK=1: a compiled propagator indexes an array outside its bounds")
+        for w in o["stderr_hits"]:
+            acc.violation(f"compiled:engine:{SC.con_types(w['spec'])}:bounds-check-failure-on-stderr", w,
+                          "NUMBA_BOUNDSCHECK=1: a bounds failure inside the compiled engine (printed as 'Exception ignored')")
+        for name, cnt in o["other_errors"].items():
+            acc.c["compiled_other_exceptions_" + name] += cnt
 
 
 def run(tier, seed):
     t0 = time.time()
     acc = propmc.run(PROP, tier, seed)
+    eng, nspecs = SC.run_units(unit, tier, seed)
+    acc.merge(eng)
+    compiled_part(acc, tier)
     calls = acc.c["calls"]
     cov = {
-        "states": calls,
-        "transitions": calls,
-        "traces_validated_against_impl": calls,
-        "evaluations": calls,
-        "distinct_nontrivial": acc.c["nt_any"],
-        "rule": "every (type, arity, params, box) of the contract table (DESIGN 2.7) is one state; one real call each; "
-                "non-trivial = distinct input on which the call pruned a bound, failed, or answered 'entailed'",
-        "exhaustive": True,
-        "instances": acc.c["instances"],
-        "bounds": f"tier={tier}: arity<=3-4, 3-5 values per variable, all parameter vectors of the table, all boxes",
+        "states": calls + acc.c["runs"] + acc.c["compiled_boundschecked_calls"] + acc.c["compiled_boundschecked_solves"],
+        "transitions": calls + acc.c["propagator_executions"] + acc.c["compiled_boundschecked_calls"],
+        "traces_validated_against_impl": calls + acc.c["runs"],
+        "evaluations": calls + acc.c["runs"] + acc.c["compiled_boundschecked_calls"] + acc.c["compiled_boundschecked_solves"],
+        "distinct_nontrivial": acc.c["nt_any"] + acc.c["nt_runs_with_search"],
+        "rule": "(a) every (type, arity, params, box): one interpreted call, IndexError = violation; (b) every (problem of U, "
+                "configuration, mode) interpreted run; (c) the same table called through the compiled dispatchers under "
+                "NUMBA_BOUNDSCHECK=1 and compiled solves of a universe slice with stderr captured; negative indices are not "
+                "out of bounds (numpy and numba define them as wrap-around); non-trivial = call that pruned/failed/entailed, run "
+                "with at least one branching decision",
+        "interpreted_calls": calls, "interpreted_runs": acc.c["runs"], "compiled_calls": acc.c["compiled_boundschecked_calls"],
+        "compiled_solves": acc.c["compiled_boundschecked_solves"], "problems": nspecs, "exhaustive": True,
+        "bounds": f"tier={tier}: contract table and universe U; compiled part on {'every third instance' if tier == 'quick' else 'every instance'} "
+                  "of the table and the C15 slice of U; stack height above the needed depth (capacity is C19's subject)",
     }
     return finish(PROP, tier, seed, "model_checking", acc, cov,
-                  ["relation predicates of mc/contracts.py (written from the documentation)",
-                   "interpreted mode executes the same Python source numba compiles (bound to compiled mode by C15)"],
-                  t0, vacuity={"pruned_types": 15, "failed_types": 15})
+                  ["gcc parameter vectors with an upper capacity 0 are skipped in compiled mode (known finding C04 gcc:ucap0:spin)"],
+                  t0, vacuity={"nt_runs_with_search": 1000, "compiled_boundschecked_calls": 100000, "compiled_boundschecked_solves": 500})
 
 
 def replay(entry):
     rc = 0
     for w in entry["witnesses"]:
         for _ in range(2):
-            acc = propmc.replay_witness(PROP, w)
-            print("replay:", w, "->", {k: v["count"] for k, v in acc.viol.items()} or "no violation")
-            if acc.viol:
-                rc = 1
+            if "type" in w:
+                st, out, exc = propmc.safe_call(w["type"], tuple(tuple(b) for b in w["box"]), tuple(w["params"]))
+                print("replay:", w["type"], w["params"], w["box"], "->", st, out, exc)
+                rc = rc or (1 if exc == "index" else 0)
+            elif "cfg" in w and "mode" in w:
+                o = S.run(w["spec"], tuple(w["cfg"]), w["mode"], w["var"])
+                print("replay:", w["spec"], w["cfg"], "->", o.abort, o.abort_detail)
+                rc = rc or (1 if o.abort == "index" else 0)
     return rc
